@@ -27,7 +27,7 @@ func init() {
 	})
 }
 
-var c10Zoo = []interface{}{&zoo.Defs{}, &zoo.Defs2{}, &zoo.NoDefs{}, &zoo.Defs{}, &zoo.Defs2{}, &zoo.Defs3{}, &zoo.Defs3{}}
+var c10Zoo = []interface{}{&zoo.Defs{}, &zoo.Defs2{}, &zoo.NoDefs{}, &zoo.Defs{}, &zoo.Defs2{}, &zoo.Defs3{}, &zoo.Defs3{}, &zoo.DefsNC{}, &zoo.DefsNCHolder{}}
 
 // driveDefaults rewrites optional scalar/string/binary fields of every struct
 // reachable from v towards the interesting cells: equal to default, zero, -0.0,
